@@ -64,7 +64,8 @@ ANCHORS = [
     'pgradd.RDkitWrapper.ReactionQuery:ChargeIncrease.__call__',
     'pgradd.RDkitWrapper.ReactionQuery:ChargeDecrease.__call__',
 ]
-EXTRA = ['C1CC1', 'C1CCC1', 'CC1CC1', 'C1CO1', 'C=CC', 'CC=CC', 'C#CC',
+EXTRA = ['[2H]C', '[3H]CC=O', '[2H]O', '[2H]C([2H])C', '[2H]OC', '[2H][CH2]',
+         'C1CC1', 'C1CCC1', 'CC1CC1', 'C1CO1', 'C=CC', 'CC=CC', 'C#CC',
          '[CH2]C[CH2]', '[CH2]CO', '[CH2]CC', 'C[CH]C', '[CH2][CH2]',
          '[CH2]C[O]', 'C[CH]O', 'CCCC', 'CC(C)C', 'CCO', 'COC', 'OCCO',
          'C=CC=C', 'CC=O', '[CH2]C=C', 'C[CH][CH2]', '[CH2]C([CH2])C',
